@@ -102,3 +102,15 @@ def max_err(a, b):
     if a.size == 0:
         return 0.0
     return float(np.max(np.abs(a - b)))
+
+
+def aeq(a, b):
+    """Bitwise-style array equality in which NaN equals NaN (a blown-up state that is NaN in two
+    executions of the same computation is still 'the same')."""
+    a = np.asarray(a)
+    b = np.asarray(b)
+    if a.shape != b.shape:
+        return False
+    if a.dtype.kind in "fc" or b.dtype.kind in "fc":
+        return bool(np.array_equal(a, b, equal_nan=True))
+    return bool(np.array_equal(a, b))
